@@ -86,7 +86,10 @@ ReqFailed(s, req, res, pre, post) ==
                 THEN {} ELSE {"C02_envelope"})
      ELSE \* a request-level error: nothing may have taken effect
           (IF post.objs = pre.objs /\ post.seq = pre.seq THEN {} ELSE {"C08_told"})
-          \cup (IF res.kind = "raised" /\ res.exc = "KmipError" THEN {} ELSE {"C13_raise"}))
+          \cup (IF res.kind = "raised" /\ res.exc = "KmipError" THEN {} ELSE {"C13_raise"})
+          \* a request refused as a whole is still answered in the request's version (res.ver is the version the answer
+          \* states when the request travelled over a session; the engine itself hands the request's version back)
+          \cup (IF res.kind = "raised" /\ req.ver \in SupportedVersions /\ res.ver # req.ver THEN {"C16_echo"} ELSE {}))
     \* the response could not be encoded under the request's version and decoded again
     \cup (IF res.unenc THEN {"C13_unencodable"} ELSE {})
     \* the library's own decoder cannot read the response the server produced (client side)
